@@ -253,8 +253,13 @@ _w["what"] = ("the subscripts of READ / INPUT targets are never visited: a funct
 _w["pinned_by"] = "tests/coco_tests/b09/test_b09.py::TestB09::test_input, test_simple_read (same visit gap as C10-read-input-varptr-only-variables)"
 _width_wit = {"C07": _w["witnesses"].pop("C07"), "C04": _w["witnesses"].pop("C04"), "C05": [_w["witnesses"]["C05"][0]]}
 _w["witnesses"]["C05"] = _w["witnesses"]["C05"][1:]
-_w["property"] = ["C05"]
+_w["property"] = ["C05", "C07"]
 _w["switch"] = "no_convertible_in_read_input_subscripts"
+# the same gap under VARPTR: the operand's subscripts are not visited either, and there the output is no longer well-formed
+_w["what"] += (" - except for numeric READ targets of a program that has an empty DATA item: those READs are rewritten into RUN ecb_read_filter(..) "
+               "statements, which are visited")
+_w["what"] += "; under VARPTR the lost call leaves a hole: 'A=VARPTR(P(INT(B) AND 7))' gives 'A := ADDR(arr_P(LAND(, 7.0)))'"
+_w["witnesses"]["C07"] = [SRC("10 A=VARPTR(P(INT(B) AND 7))")]
 finding("C05-width-operand-not-visited", ["C05", "C07", "C04"],
         "the operand of WIDTH was never visited: 'WIDTH INT(A)' gave 'run _ecb_width(, display)', and an array that occurs only in a WIDTH operand was never declared",
         _width_wit, status="fixed", commit="3a8d956")
